@@ -117,6 +117,7 @@ def main():
         file_changed = False
         backup_file = yaml_file + ".bak"
         seen_anchors = []
+        seen_places = set()
 
         # Each YAML_FILE must actually be a file
         if not isfile(yaml_file):
@@ -153,6 +154,14 @@ def main():
                         continue
 
                     seen_anchors.append(anchor_name)
+
+                # An Aliased Hash or Array leads to the very same value by
+                # more than one YAML Path; rotate it once
+                place = (id(node_coordinate.parent),
+                         repr(node_coordinate.parentref))
+                if place in seen_places:
+                    continue
+                seen_places.add(place)
 
                 log.verbose("Decrypting value(s) at {}.".format(yaml_path))
                 processor.publickey = args.oldpublickey
